@@ -863,4 +863,96 @@ theorem cleanup_all_idempotent {St Upd : Type} (cfg : Cfg St Upd) (sc : Sched) (
 
 example := cleanup_all_idempotent (exCfg 2) okSched (fun _ => rfl) (fun _ => rfl) (runCalls (exCfg 2) okSched { store := [] } (exL1 ++ exL2)) true
 
+/-! ### round 6: recovery does not depend on the READER's maximum_pending_updates -/
+
+private theorem applyAll_reader {St Upd : Type} (cfg : Cfg St Upd) (m' : Nat) (l : List (Option (PVal St Upd))) :
+    ∀ m : Mon St, applyAll { cfg with maxPending := m' } m l = applyAll cfg m l := by
+  induction l with
+  | nil => intro m; rfl
+  | cons a r ih =>
+    intro m
+    cases a with
+    | none => rfl
+    | some v =>
+      cases v with
+      | upd uid u =>
+        have hu : applyUpd { cfg with maxPending := m' } m uid u = applyUpd cfg m uid u := rfl
+        simp only [applyAll, hu]
+        cases applyUpd cfg m uid u with
+        | none => rfl
+        | some m2 => exact ih m2
+      | mon a b c => rfl
+      | junk a => rfl
+
+private theorem readWithUpdates_reader {St Upd : Type} (cfg : Cfg St Upd) (m' : Nat) (sc : Sched) (w : World St Upd) (name : String) :
+    readWithUpdates { cfg with maxPending := m' } sc w name = readWithUpdates cfg sc w name := by
+  unfold readWithUpdates
+  simp only [applyAll_reader]
+
+private theorem readAllLoop_reader {St Upd : Type} (cfg : Cfg St Upd) (m' : Nat) (sc : Sched) (names : List String) :
+    ∀ w : World St Upd, readAllLoop { cfg with maxPending := m' } sc names w = readAllLoop cfg sc names w := by
+  induction names with
+  | nil => intro w; rfl
+  | cons nm rest ih => intro w; simp only [readAllLoop, readWithUpdates_reader, ih]
+
+/-- `recovery_independent_of_reader_max_pending`. `maximum_pending_updates` is a constructor argument of the
+    persister, not something stored: the persister that RECOVERS may have been built with another value than
+    the one that wrote the store (0 = "update writing disabled" included). For every configuration `cfg`
+    (the writer's), EVERY reader value `m'`, every fault schedule, world / store and monitor name, recovery
+    through a persister built with `m'` — `maybe_read_channel_monitor_with_updates`, `read_all_channel_monitors_with_updates`,
+    and the pure reading `recover` that `persister_recovers` is about — is EXACTLY recovery with the writer's
+    value (same store operations, same answer), so `persister_recovers` holds for every reader value; and a
+    successful recovery is the stored full monitor with EVERY listed update above its id applied in order
+    (`applyAll` over all of `idsToLoad`), whatever `m'` is. Tie to the code: `recoveryReadsMaxPending` is
+    TRANSLATED from persist.rs (does the read path mention `maximum_pending_updates` at all): if the read path
+    consults the field (seeded C19-r6: a fast path for 0 that skips listing the updates), this theorem no
+    longer compiles. -/
+theorem recovery_independent_of_reader_max_pending {St Upd : Type} (cfg : Cfg St Upd) (m' : Nat) :
+    recoveryReadsMaxPending = false ∧
+    (∀ (sc : Sched) (w : World St Upd) (name : String),
+      readWithUpdates { cfg with maxPending := m' } sc w name = readWithUpdates cfg sc w name) ∧
+    (∀ (sc : Sched) (w : World St Upd), readAll { cfg with maxPending := m' } sc w = readAll cfg sc w) ∧
+    (∀ (s : Store (PVal St Upd)) (name : String),
+      recover { cfg with maxPending := m' } s name = recover cfg s name ∧
+      ∀ mr, recover { cfg with maxPending := m' } s name = .ok mr →
+        ∃ v m ids, s.get (monKey name) = some v ∧ decodeMon name v = .ok m ∧
+          idsToLoad (s.names CHANNEL_MONITOR_UPDATE_PERSISTENCE_PRIMARY_NAMESPACE name) m.id = some ids ∧
+          applyAll cfg m (ids.map (fun id => s.get (updKey name id))) = .ok mr) := by
+  refine ⟨rfl, fun sc w name => readWithUpdates_reader cfg m' sc w name, ?_, ?_⟩
+  · intro sc w
+    unfold readAll
+    simp only [readAllLoop_reader]
+  · intro s name
+    have hrec : recover { cfg with maxPending := m' } s name = recover cfg s name := by
+      unfold recover recoverPure
+      simp only [applyAll_reader]
+    refine ⟨hrec, ?_⟩
+    intro mr h
+    rw [hrec] at h
+    unfold recover recoverPure at h
+    split at h
+    · cases h
+    · cases hv : s.get (monKey name) with
+      | none => rw [hv] at h; cases h
+      | some v =>
+        rw [hv] at h
+        simp only at h
+        cases hd : decodeMon name v with
+        | error e => rw [hd] at h; cases h
+        | ok m =>
+          rw [hd] at h
+          simp only at h
+          cases hi : idsToLoad (s.names CHANNEL_MONITOR_UPDATE_PERSISTENCE_PRIMARY_NAMESPACE name) m.id with
+          | none => rw [hi] at h; cases h
+          | some ids =>
+            rw [hi] at h
+            exact ⟨v, m, ids, rfl, hd, hi, h⟩
+
+/-- non-vacuity: a store written with maximum_pending_updates = 3 and stopped at update 2 (full monitor at 0,
+    update files 1 and 2 above it) is a store the theorem applies to with reader value 0 (recovery = the writer's recovery: full monitor 0 + updates 1, 2) -/
+def exStoreR6 : Store (PVal (List Nat) Nat) :=
+  (runHistory (exCfg 3) okSched "a" [] ⟨0, []⟩ [.update 1 10 false, .update 2 20 false]).w.store
+example : exStoreR6.keys = [("monitor_updates", "a", "2"), ("monitor_updates", "a", "1"), ("monitors", "", "a")] := by decide
+example := (recovery_independent_of_reader_max_pending (St := List Nat) (Upd := Nat) (exCfg 3) 0).2.2.2 exStoreR6 "a"
+
 end Ldk.C19
